@@ -12,7 +12,7 @@ PROP = {
                   "delete_all_documents incl. the stamper revert, consider_merge_options' stamp) is transliterated into Gallina with an explicit schedule oracle, and refined to the "
                   "10-line sequential replay: for EVERY history outside the F2 class, EVERY schedule and any number of workers, the published documents are a permutation (multiset, all "
                   "fields) of committed (replay h), each exactly once (C02_commit_is_replay, C02_exactly_once, C02_schedule_independent, C02_delete_only_earlier, C02_rollback_restores, "
-                  "C02_opstamps, C02_commit_opstamp_reported for f1 = true). compute_deleted_bitset is modelled with the fixed comparison `opstamp >= target -> break` (F50/F021; pinned), which the proof needs together with the invariant that an opstamp is handed out once. Known findings are stated as refuted witnesses: F1 (commit_opstamp() never follows a commit) and F2 (delete_all_documents reverts the stamper to a stale "
+                  "C02_opstamps, C02_commit_opstamp_reported for f1 = true). The schedule oracle includes EStaleSave m: a task of a killed updater reaching save_metas with any stale view m, which the `if self.is_alive()` guard (pinned) turns into a no-op. compute_deleted_bitset is modelled with the fixed comparison `opstamp >= target -> break` (F50/F021; pinned), which the proof needs together with the invariant that an opstamp is handed out once. Known findings are stated as refuted witnesses: F1 (commit_opstamp() never follows a commit) and F2 (delete_all_documents reverts the stamper to a stale "
                   "opstamp and ignores the pipeline). Partial: concurrent producers (single producer only); merges are exercised by the harness (spec cases under LogMergePolicy and explicit "
                   "merges) but merge start/end are not events of the proved model; index sorting is C17's.",
     "level_note": "Trusted: Coq kernel + vm_compute; pin.py (flag WRITER_COMMIT_STORES_OPSTAMP read from the source); the harness. Segment-updater tasks are atomic in the model (one thread, callers wait); "
@@ -20,7 +20,7 @@ PROP = {
                   "body a function of the id; delete targets are tag terms and id ranges. No axioms (Print Assumptions: closed under the global context).",
     "technique": "Coq proof (simulation invariant over the op list: opstamps strictly increasing, cursor invariants, effective-content multiset) + correspondence cases evaluated by vm_compute",
     "rule": "cases: histories (<= 35 ops quick, <= 58 thorough) of add / delete_term / delete_query / run / delete_all / commit(+payload via prepare_commit) / rollback / abort / drop+reopen / wait_merging_threads, "
-            "1..8 threads, NoMergePolicy / LogMergePolicy(min 2 segments) + explicit merges, searchers loaded WITHOUT commit after merges and after the pattern restore; delete; merge; plus histories of bulky documents (900..2200 unique tokens each) whose uncommitted work overflows the 15 MB budget 1.4..2.6 times per thread and transaction (single adds, run() batches, deletes in between), compared with the model under the schedule inferred from the observed segment sizes and opstamps; non-trivial = at least one delete matching documents on both sides of a commit; distinct by hash of the Gallina term",
+            "1..8 threads, NoMergePolicy / LogMergePolicy(min 2 segments) + explicit merges, searchers loaded WITHOUT commit after merges and after the pattern restore; delete; merge; plus two-writer-generation schedules (a merge of committed segments parked through a VerifDirectory hook, deletes committed meanwhile, the accepted end_merge task parked on the updater thread at its .del file, writer 1 dropped / rolled back, writer 2 commits, the old task released, fresh searcher); plus histories of bulky documents (900..2200 unique tokens each) whose uncommitted work overflows the 15 MB budget 1.4..2.6 times per thread and transaction (single adds, run() batches, deletes in between), compared with the model under the schedule inferred from the observed segment sizes and opstamps; non-trivial = at least one delete matching documents on both sides of a commit; distinct by hash of the Gallina term",
     "trusted_base": COMMON_TB + ["real thread interleavings are represented by the schedule oracle of the model (proved for all oracles); the harness compares schedule-independent observations when N > 1",
                                  "memory-budget cuts are oracle events in the model (the arena arithmetic is not modelled); the harness reaches them with bulky documents and infers the cut positions from the observed segments"],
     "assumptions": ["single producer thread (IndexWriter calls are issued sequentially)", "fewer than 2^64 operations (opstamps do not wrap)",
